@@ -140,6 +140,7 @@ func (w *world) createReq(st map[string]interface{}, id string) *request.CreateR
 		TaskID:             id,
 		MilvusConnectParam: model.MilvusConnectParam{URI: w.tgts[hx.S(st, "tgt")], Token: "root:Milvus", ConnectTimeout: 3},
 		ExtraInfo:          model.ExtraInfo{EnableUserRole: hx.B(st, "ur")},
+		DisableAutoStart:   hx.B(st, "noauto"),
 	}
 	ci := []model.CollectionInfo{{Name: coll}}
 	if db == "default" && via != "dbc" {
